@@ -36,7 +36,17 @@ func AutomorphismNTTIndex(N int, NthRoot, GalEl uint64) (index []uint64, err err
 // AutomorphismNTT applies the automorphism X^{i} -> X^{i*gen} on a polynomial in the NTT domain.
 // It must be noted that the result cannot be in-place.
 func (r Ring) AutomorphismNTT(polIn Poly, gen uint64, polOut Poly) {
-	index, err := AutomorphismNTTIndex(r.N(), r.NthRoot(), gen)
+
+	NthRoot := r.NthRoot()
+
+	// In Z[X+X^-1]/(X^2N+1) the maps X -> X^gen and X -> X^-gen are the same automorphism, and the NTT
+	// only stores the evaluations at the roots psi^e with e = 1 mod 4: among the two representatives, only
+	// the one that is 1 mod 4 maps these roots onto themselves (the other one indexes the discarded half).
+	if r.Type() == ConjugateInvariant && gen&3 == 3 {
+		gen = NthRoot - gen&(NthRoot-1)
+	}
+
+	index, err := AutomorphismNTTIndex(r.N(), NthRoot, gen)
 	// Sanity check, this error should not happen.
 	if err != nil {
 		panic(err)
